@@ -39,6 +39,7 @@ pub fn dispatch(prop: &str, tier: Tier, seed: u64) -> i32 {
     match prop {
         "C01" => hybchecks::check_c01(tier, seed),
         "C02" => memrace::check_c02(tier, seed),
+        "C02-FREE-CHILD" => memrace::check_c02_free_child(tier, seed),
         "C03" => c03check::check_c03(tier, seed),
         "C04" => c04check::check_c04(tier, seed),
         "C05" => memchecks::check_c05(tier, seed),
@@ -68,6 +69,7 @@ pub fn replay(rf: &ReplayFile) -> anyhow::Result<Option<Failure>> {
         ("C05", "capdist") => memchecks::exec_capdist(&case_from(rf)?).failure,
         (_, s) if s.starts_with("fuzz-") => fuzzglue::replay(&case_from(rf)?),
         ("C01", _) => hybchecks::exec_c01(&case_from(rf)?).failure,
+        ("C02", "free-crash") => memrace::replay_crash(&rf.case),
         ("C02", _) => memrace::exec_case(&case_from(rf)?).failure,
         ("C06", _) => fetchcheck::exec_fetch(fetchcheck::Which::C06, &case_from(rf)?).failure,
         ("C11", _) => fetchcheck::exec_fetch(fetchcheck::Which::C11, &case_from(rf)?).failure,
